@@ -186,7 +186,8 @@ public:
         auto dir = QDir(baseDir());
         auto maxIndex = 0;
 
-        const auto entries = dir.entryList(QDir::Files);
+        // (QDir::Hidden: the rotated files of a log file whose name starts with a dot are hidden too)
+        const auto entries = dir.entryList(QDir::Files | QDir::Hidden);
         for (const QString &entry : entries) {
             auto match = re.match(entry);
             if (match.hasMatch()) {
@@ -269,7 +270,7 @@ public:
         auto dir = QDir(baseDir());
         auto files = QList<RotatedFile>();
 
-        const auto entries = dir.entryList(QDir::Files, QDir::Name);
+        const auto entries = dir.entryList(QDir::Files | QDir::Hidden, QDir::Name);
         for (const QString &entry : entries) {
             const auto match = re.match(entry);
             if (match.hasMatch()) {
